@@ -4,7 +4,7 @@
     value, two-hash function and equality test (in particular for the real
     double SHA-256); [C18_binding] is stated in the symbolic hash algebra [h]. *)
 From Coq Require Import List ZArith NArith Bool.
-From C33 Require Import C18.Model C18.Spec C18.ModelServe C18.ProofsServe3 C18.Proofs.
+From C33 Require Import C18.Model C18.Spec C18.ModelServe C18.ProofsServe3 C18.ProofsServe4 C18.Proofs.
 Import ListNotations.
 
 Theorem C18_parallel_eq_sequential :
@@ -154,6 +154,28 @@ Theorem C18_served_proofs_verify :
 Proof. exact produced_verify_thm. Qed.
 Print Assumptions C18_served_proofs_verify.
 
+(** para-chain node (blockchain.isParaChain): ProcQueryTxMsg always serves the single-layer
+    proof over the full hashes.  Full claim: it checks for every title-sorted block.  Refuted:
+    a block with main-chain and para-chain transactions has the multi-layer TxHash (finding 2). *)
+Definition C18_served_proofs_verify_para_full : Prop := served_verify_para_full_claim.
+
+Theorem C18_served_proofs_verify_para_refuted : ~ C18_served_proofs_verify_para_full.
+Proof. exact served_verify_para_refuted_thm. Qed.
+Print Assumptions C18_served_proofs_verify_para_refuted.
+
+(** guard [para_guard fork txs] = before the fork, or all transactions of the block carry the same title *)
+Theorem C18_served_proofs_verify_para_partial :
+  forall (T : Type) (nilT : T) (hash2 : T -> T -> T) (eqT : T -> T -> bool),
+    (forall x y, eqT x y = true <-> x = y) ->
+    forall (fork : bool) (ncpu : Z) (txs : list (btx T)) (i : nat) (x : btx T),
+      para_guard fork txs = true -> nth_error txs i = Some x ->
+      exists root reply,
+        block_txhash T nilT hash2 fork ncpu txs = Some root /\
+        proc_query_tx T nilT hash2 eqT fork true ncpu txs i = Some reply /\
+        verify_reply T hash2 eqT fork root (bt_hash x) (bt_full x) reply = true.
+Proof. exact served_verify_para_partial_thm. Qed.
+Print Assumptions C18_served_proofs_verify_para_partial.
+
 (** binding (symbolic algebra): whatever reply checks for two transactions against the same
     non-nil TxHash is about the same (full) hash; in particular the reply served for
     transaction i of a block checks for no other hash *)
@@ -226,3 +248,14 @@ Example C18_example_served :
      verify_reply h sym_hash2 h_eqb true root (Leaf 6) (Leaf 16) r = false).
 Proof. exact example_served_thm. Qed.
 Print Assumptions C18_example_served.
+
+Example C18_example_para :
+  let txs := [mk_btx (Some 4%N) (Leaf 1) (Leaf 11); mk_btx (Some 4%N) (Leaf 2) (Leaf 12);
+              mk_btx (Some 4%N) (Leaf 3) (Leaf 13)] in
+  para_guard true txs = true /\ para_guard true para_witness_txs = false /\
+  served_guard true para_witness_txs = true /\
+  block_txhash h HNil sym_hash2 true 1 txs = Some (H2 (H2 (Leaf 11) (Leaf 12)) (H2 (Leaf 13) (Leaf 13))) /\
+  proc_query_tx h HNil sym_hash2 h_eqb true true 1 txs 2 =
+    Some (mk_reply [] [mk_txproof [Leaf 13; H2 (Leaf 11) (Leaf 12)] 2%N None] (Leaf 13) 2%N).
+Proof. exact example_para_thm. Qed.
+Print Assumptions C18_example_para.
